@@ -142,7 +142,7 @@ def load_refactors() -> list[tuple[str, str, Path]]:
     out = []
     d = VERIF / "refactors"
     if d.is_dir():
-        for p in sorted(list(d.glob("C*-R*.diff")) + list(d.glob("C*-S*.diff")) + list(d.glob("C*-T*.diff")) + list(d.glob("C*-U*.diff")) + list(d.glob("C*-V*.diff")) + list(d.glob("C*-W*.diff"))):
+        for p in sorted(list(d.glob("C*-R*.diff")) + list(d.glob("C*-S*.diff")) + list(d.glob("C*-T*.diff")) + list(d.glob("C*-U*.diff")) + list(d.glob("C*-V*.diff")) + list(d.glob("C*-W*.diff")) + list(d.glob("C*-X*.diff"))):
             out.append((p.stem, p.stem.split("-")[0], p))
     return out
 
